@@ -57,7 +57,7 @@ def gen_case(rng):
                 units.append(pieces.pop(0))
         calls.append({'op': kind, 'pats': pats, 'units': units, 'idle': idle,
                       'W': rng.choice([-1, -1, None, 1, 2, 3, 4, 8, 100]),
-                      'abandon': rng.random() < 0.45})
+                      'abandon': rng.random() < 0.45, 'T': rng.choice([0.05, 0.1, 0.1, 0.25])})
     if rng.random() < 0.5:
         # a later call looks for a longer literal (or its regex form) whose only chance is an occurrence that straddles
         # two of its own delivery units - after an earlier call with short strings has been through the protocol
@@ -184,7 +184,8 @@ def one(case, acc, prefix='asyncio-path'):
                     continue
                 end = 'eof' if pipe.eof else 'timeout'
                 break
-            kw = {'timeout': None if call['abandon'] else T, 'searchwindowsize': W}
+            Tc = call.get('T', T)
+            kw = {'timeout': None if call['abandon'] else Tc, 'searchwindowsize': W}
             if call['op'] == 'expect':
                 co = c.expect(pats, async_=True, **kw)
             elif call['op'] == 'expect_exact':
@@ -193,10 +194,11 @@ def one(case, acc, prefix='asyncio-path'):
                 co = c.expect_list(c.compile_pattern_list(pats), async_=True, **kw)
             ret = exc = None
             gave_up = False
+            t0 = time.time()
             try:
                 if call['abandon']:
                     try:
-                        ret = loop.run_until_complete(asyncio.wait_for(co, T))
+                        ret = loop.run_until_complete(asyncio.wait_for(co, Tc))
                     except asyncio.TimeoutError:
                         gave_up = True
                 else:
@@ -205,6 +207,7 @@ def one(case, acc, prefix='asyncio-path'):
                 raise
             except BaseException as e:
                 exc = e
+            dt = time.time() - t0
             left = list(tw.queue)
             tw.queue = []
             acc.count('async_model_calls')
@@ -220,7 +223,7 @@ def one(case, acc, prefix='asyncio-path'):
                 acc.count('async_model_abandoned_awaits')
                 if end != 'timeout':
                     acc.violation(prefix + ':await-does-not-finish', '%s: the naive model %s, the await was still pending after %.1f s'
-                                  % (desc, 'ends in EOF' if hit is None else 'matches %r' % (short(P[hit[0]:hit[1]]),), T), case)
+                                  % (desc, 'ends in EOF' if hit is None else 'matches %r' % (short(P[hit[0]:hit[1]]),), Tc), case)
                     return False
                 abandoned = True
                 continue
@@ -240,6 +243,15 @@ def one(case, acc, prefix='asyncio-path'):
                 idx = max([j for j, (kk, pp) in enumerate(mp) if kk == 'm' and pp == 'TIMEOUT'] or [-1])
                 want = ('timeout', idx if idx >= 0 else 'raised', P, 'TIMEOUT', P)
             got = (o[0], o[1], o[2], o[3], o[6])
+            if got[0] == 'timeout':
+                # the deadline of THIS call, whatever earlier calls on the object were given
+                acc.count('async_model_timeouts_timed')
+                if dt < Tc - 0.02:
+                    acc.violation(prefix + ':call-times-out-early', '%s: TIMEOUT after %.3f s of a %.2f s timeout' % (desc, dt, Tc), case)
+                    return False
+                if dt > Tc + 2.0:
+                    acc.violation(prefix + ':call-exceeds-timeout', '%s: TIMEOUT after %.2f s of a %.2f s timeout' % (desc, dt, Tc), case)
+                    return False
             if not at_start:
                 abandoned = False          # a call that used the transport pauses it when it ends
             if got != want:
